@@ -597,12 +597,14 @@ enum POp {
 }
 
 impl POp {
-    /// hook points inside the operation on the instrumented tree
+    /// hook points inside the operation on the instrumented tree (an upper bound: a tree
+    /// without `persist:update_*:after_storage` hits one hook per update; a crash point
+    /// beyond the hooks actually hit means "right after the acknowledgement")
     fn hooks(&self) -> u32 {
         match self {
             POp::CreateNode { .. } | POp::CreateEdge { .. } => 4,
             POp::DeleteNode { .. } | POp::DeleteEdge { .. } => 3,
-            POp::UpdateNode { .. } | POp::UpdateEdge { .. } => 1,
+            POp::UpdateNode { .. } | POp::UpdateEdge { .. } => 2,
             POp::Flush | POp::Checkpoint => 0,
         }
     }
@@ -635,8 +637,8 @@ impl POp {
 }
 
 /// Where the child process dies: at the `point`-th hook hit inside operation `op`
-/// (1..=hooks), or right after that operation's acknowledgement (`point == hooks+1`,
-/// "between operations"). `None` = no crash: the manager is dropped and the process exits.
+/// (1..=hooks), or right after that operation's acknowledgement (`point` greater than the
+/// hooks the operation hits, "between operations"). `None` = no crash: the manager is dropped and the process exits.
 #[derive(Clone, Copy, Debug, Serialize, Deserialize, PartialEq, Eq, Hash)]
 struct Crash {
     op: usize,
@@ -741,7 +743,8 @@ fn c16_child_exec(dir: &Path, case: &C16Case, fd: i32) {
         match catch(|| c16_exec_op(&pm, op)) {
             Ok(Ok(())) => {
                 fd_write(fd, format!("A {i}\n").as_bytes());
-                if case.crash == Some(Crash { op: i, point: op.hooks() + 1 }) {
+                // "between operations": the crash point lies beyond the hooks this op hit
+                if case.crash.map(|c| c.op == i && c.point > C16_HITS.load(Ordering::SeqCst)).unwrap_or(false) {
                     unsafe { libc::_exit(0) };
                 }
             }
